@@ -297,6 +297,34 @@ def emit(seed, tier, with_numpy=False):
     for cname, parts in (("Dual3_64", [1.0009765625, 0.5, 0.25, 1.0]), ("HyperHyperDual64", [1.0009765625, 0.5, 1.0, 2.0, 0.0, 0.25, 0.0, 1.0])):
         for name in ("pow_i", "powi"):
             jobs.append({"kind": "scalar", "class": cname, "inputs": [[fbits(v) for v in parts]], "ops": [{"op": name, "a": 0, "n": 2000}]})
+    # value coincidences: the neutral and absorbing constants of every float-operand form (0, -0, 1, -1) against real parts
+    # that are exactly 0, -0, 1 or -1 (all other parts non-zero), each followed by recip(), which turns the sign of a
+    # zero into +inf / -inf.  A shortcut such as "0 + x is x" or "x * 1 is x" is right except for the sign of a zero.
+    for cname, nparts in CLASSES.items():
+        for re0 in (0.0, -0.0, 1.0, -1.0):
+            parts = [re0] + [0.5 + 0.25 * k for k in range(nparts - 1)]
+            ops = []
+            for name in ("add_f", "radd_f", "sub_f", "rsub_f", "mul_f", "rmul_f", "div_f"):
+                for c in (0.0, -0.0, 1.0, -1.0):
+                    if name == "div_f" and c == 0.0:
+                        continue
+                    ops.append({"op": name, "a": 0, "c": c})
+            n_first = len(ops)
+            for k in range(n_first):
+                ops.append({"op": "recip", "a": 1 + k})
+            ops.append({"op": "neg", "a": 0})
+            ops.append({"op": "add", "a": 0, "b": 0})
+            ops.append({"op": "sub", "a": 0, "b": 0})
+            ops.append({"op": "pow_i", "a": 0, "n": 1})
+            ops.append({"op": "pow_i", "a": 0, "n": 0})
+            ops.append({"op": "pow_f", "a": 0, "c": 1.0})
+            jobs.append({"kind": "scalar", "class": cname, "inputs": [[fbits(p) for p in parts]], "ops": bitsify(ops)})
+    # the same coincidence inside a driver: sum(v) starts from the int 0, 0 + v[0] is the reflected addition
+    for n in (1, 2, 10, 11):
+        for re0 in (-0.0, 0.0):
+            x = [re0] + [0.5 * (i + 1) for i in range(n - 1)]
+            ops = [{"op": "radd_f", "a": 0, "c": 0.0}, {"op": "recip", "a": n}]
+            jobs.append({"kind": "driver", "driver": "gradient", "x": [fbits(v) for v in x], "ops": bitsify(ops)})
     reps = 3 if tier == "quick" else 80
     for _ in range(reps):
         for drv, nin in (("first_derivative", 1), ("second_derivative", 1), ("third_derivative", 1), ("second_partial_derivative", 2), ("third_partial_derivative", 3)):
